@@ -113,6 +113,9 @@ func RegistryHostsFromConfig(cfg Config, credsFuncs ...Credential) source.Regist
 					}
 					if len(via) > 0 && req.URL.Host != via[0].URL.Host {
 						for key := range configured {
+							// The header table keeps the keys as they are spelled in
+							// the config, which Del would canonicalize.
+							delete(req.Header, key)
 							req.Header.Del(key)
 						}
 					}
